@@ -11,7 +11,23 @@ def showOpt : Option Bytes → String
   | some b => xh b
   | none => "panic"
 
+/-- one step of a `history` op: `<k>:<hex>` with k = i (IsPseudoVersion), b (Base), r (Rev), t (Time) -/
+def step (t : String) : Option String :=
+  match t.splitOn ":" with
+  | [k, v] => do
+      let v ← hx v
+      match k with
+      | "i" => pure (showBool (isPseudoVersion v))
+      | "b" => pure (showRes (pseudoVersionBase v))
+      | "r" => pure (showRes (pseudoVersionRev v))
+      | "t" => pure (showRes (pseudoVersionTime v))
+      | _ => none
+  | _ => none
+
 def handle : Handler
+  -- a call HISTORY in one op: the Go side makes the calls one after the other in one process, the model
+  -- (pure functions) answers each call on its own; results as "[r1,r2,…]"
+  | "history", toks => do let outs ← toks.mapM step; pure ("[" ++ ",".intercalate outs ++ "]")
   | "pseudoversion", [maj, older, secs, rev] => do
       let maj ← hx maj; let older ← hx older; let secs ← secs.toInt?; let rev ← hx rev
       pure (showRes (pseudoVersion maj older (formatUnix secs) rev))
